@@ -487,6 +487,9 @@ func genPartial() ([]*Log, map[string][]*Variant) {
 		{"hmset", "t:a", "f", "1", long, "2"}, {"zadd", "t:a", "1", "m", "2", long}, {"sadd", "t:a", "m", long},
 		{"hmset", "t:a", "f", "1", "g"}, {"zadd", "t:a", "1", "m", "x", "n"}, {"rpush", "t:a", "1", long},
 		{"json.set", "t:a", "a", "{bad"}, {"setex", "t:a", "0", "v"}, {"hincrby", "t:a", "f", "x"},
+		// a later VALUE over MaxValueSize (errValueSize) after the first pair has been staged
+		{"mset", "t:a", "1", "t:z", strings.Repeat("v", 8*1024*1024+1)}, {"plset", "t:a", "1", "t:z", strings.Repeat("v", 8*1024*1024+1)},
+		{"hmset", "t:a", "f", "1", "g", strings.Repeat("v", 8*1024*1024+1)},
 	}
 	nexts := [][]string{{"set", "t:b", "2"}, {"incr", "t:c"}, {"hmset", "t:h", "f", "1"}, {"sadd", "t:s", "m"}, {"del", "t:x"}}
 	var logs []*Log
@@ -749,8 +752,9 @@ func genHll() ([]*Log, map[string][]*Variant) {
 		for _, eng := range []string{"mem", "pebble"} {
 			n++
 			l := &Log{ID: "Y" + strconv.Itoa(n), Policy: pol}
-			cmds := [][]string{{"pfadd", "t:p", "a"}, {"set", "t:o", "1"}, {"pfadd", "t:p", "b", "c"}, {"pfadd", "t:q", "x", "y"},
-				{"pfadd", "t:p", "d"}, {"pfadd", "t:q", "y", "z"}, {"set", "t:o", "2"}}
+			cmds := [][]string{{"pfadd", "t:p", "a"}, {"pfadd", "t:r", "u", "v", "w"}, {"set", "t:o", "1"}, {"pfadd", "t:p", "b", "c"},
+				{"pfadd", "t:q", "x", "y"}, {"del", "t:r"}, {"pfadd", "t:s", "k"}, {"pfadd", "t:p", "d"}, {"del", "t:s"}, {"pfadd", "t:q", "y", "z"},
+				{"pfadd", "t:s", "l", "m"}, {"set", "t:o", "2"}}
 			for i, c := range cmds {
 				l.Reqs = append(l.Reqs, mkReq(c, int64(i+1)*sec))
 			}
